@@ -15,7 +15,7 @@ from ..canon import canon
 
 ID = "C09"
 RULE = (
-    "every document of <=4 (quick) / <=5 (thorough) blocks over a 10-block catalogue whose entry, string and field keys come from a small pool "
+    "every document of <=4 (quick) / <=5 (thorough) blocks over a 12-block catalogue whose entry, string and field keys come from a small pool "
     "(entries a/a/b with different types and fields, an entry repeating field keys x,x,y,x, strings s/s/t, two strings named like an entry key, "
     "a free-text comment), parsed with the default stack and with parse_stack=[]; compared with a constructive reference walk (first holder "
     "live, later ones wrapped in place). Non-trivial = document with at least one key collision (distinct by document)."
@@ -34,6 +34,9 @@ CAT = [
     ("string", "a", '"named like an entry"', '@string{a = "named like an entry"}'),
     ("comment", "free comment", "free comment"),
     ("string", "a", "{second a}", "@string{a = {second a}}"),
+    # every syntactic form of an entry: no comma and no fields (RefTeX), trailing comma
+    ("entry", "misc", "b", [], "@misc{b}"),
+    ("entry", "report", "c", [("z", "{9}")], "@report{c, z = {9},}"),
 ]
 
 
@@ -66,7 +69,7 @@ def check_doc(ids, sep, acc, case=None):
         try:
             lib = bibtexparser.parse_string(text) if stack == "default" else bibtexparser.parse_string(text, parse_stack=[])
         except Exception as e:
-            acc.raised[type(e).__name__] += 1
+            acc.exception(e, case, "parse_string", size=len(ids))
             continue
         blocks = lib.blocks
         acc.step(("doc", text), ("parse", stack), tuple(type(b).__name__ for b in blocks))
